@@ -12,7 +12,7 @@
    (family stagefile) - it is known to fail for an artifact path equal to "<<" (known finding
    D12, a yaml.v2 encoder defect). *)
 From Coq Require Import NArith List Bool Permutation.
-From DudV Require Import Base.Bytes Base.Json Base.GoPath Model.Fs Model.Cache Model.Stage Model.Index Model.StageFile Proofs.StageFileProofs.
+From DudV Require Import Base.Bytes Base.Json Base.GoPath Model.Fs Model.Cache Model.Stage Model.Index Model.StageFile Model.System Proofs.StageFileProofs Proofs.PipelineProofs Proofs.DefStatusProofs.
 Import ListNotations.
 
 Theorem C17_normalise : forall y, nf_stage (from_file y) = true.
@@ -67,3 +67,53 @@ Theorem C17_def_injective_nf :
     (def_json s1 = def_json s2 <-> def_view s1 = def_view s2).
 Proof. exact C17_def_injective_nf. Qed.
 Print Assumptions C17_def_injective_nf.
+
+(* "... so status shows the definition up-to-date right after commit and modified after any such
+   edit", over the whole-program model (System.step re-loads the stage files the commit wrote).
+   [ss_has]: the stage has a recorded definition checksum; [ss_match]: status calls the definition
+   up to date.  Premise of the first: H never returns the empty string (a recorded empty checksum
+   reads as "not committed": DefStatusProofs.Demo.empty_hash_never_up_to_date). *)
+Theorem C17_status_after_commit :
+  forall (H : bytes -> bytes) sems w idx ts copy w' o1 ts2 w'' out sp ss,
+    (forall x, H x <> []) ->
+    w_lock w = false -> load_index (w_index w) (w_stages w) [] = Some idx ->
+    step H sems w (CCommit ts copy) = (w', true, o1) ->
+    In sp (all_or ts idx) ->
+    step H sems w' (CStatus ts2) = (w'', true, OStatus out) ->
+    alookup sp out = Some ss ->
+    ss_has ss = true /\ ss_match ss = true.
+Proof. exact step_status_after_commit_definition_up_to_date. Qed.
+Print Assumptions C17_status_after_commit.
+
+(* stg1 as a commit left it; stg2 = the same records under an edited definition (command, working
+   directory, or the set, paths or flags of inputs/outputs: def_key differs) *)
+Theorem C17_status_after_definition_edit :
+  forall (H : bytes -> bytes) sems w ts w' out sp ss stg1 stg2,
+    (forall a b, H a = H b -> a = b) -> ok_stage stg1 -> ok_stage stg2 ->
+    s_cs stg1 = def_checksum H stg1 -> s_cs stg2 = s_cs stg1 -> def_key stg2 <> def_key stg1 ->
+    alookup sp (w_stages w) = Some (Some stg2) ->
+    step H sems w (CStatus ts) = (w', true, OStatus out) -> alookup sp out = Some ss ->
+    ss_match ss = false.
+Proof. exact step_status_after_definition_edit_modified. Qed.
+Print Assumptions C17_status_after_definition_edit.
+
+(* what status reports about the definition, exactly *)
+Theorem C17_status_definition_iff :
+  forall (H : bytes -> bytes) sems w ts w' out sp ss,
+    step H sems w (CStatus ts) = (w', true, OStatus out) -> alookup sp out = Some ss ->
+    exists stg, alookup sp (w_stages w) = Some (Some stg) /\
+      (ss_has ss = true <-> s_cs stg <> []) /\
+      (ss_match ss = true <-> s_cs stg <> [] /\ def_checksum H stg = s_cs stg).
+Proof. exact step_status_def_match_iff. Qed.
+Print Assumptions C17_status_definition_iff.
+
+(* a commit never changes a definition: every stage of the index keeps its command, working
+   directory, and the paths and flags of its inputs and outputs (inputs distinct and skip-cache, as
+   every loaded stage has them: DefStatusProofs.nf_stage_wf_in) *)
+Theorem C17_commit_preserves_definitions :
+  forall (H : bytes -> bytes) strat fuel ts idx root c idx' root' c' done,
+    commit_targets H strat fuel ts (Ok (mkI idx root c, [])) = Ok (mkI idx' root' c', done) ->
+    forall sp stg, alookup sp idx = Some stg -> wf_in stg ->
+      exists stg', alookup sp idx' = Some stg' /\ def_view stg' = def_view stg /\ def_key stg' = def_key stg.
+Proof. exact commit_preserves_definitions. Qed.
+Print Assumptions C17_commit_preserves_definitions.
